@@ -1,8 +1,8 @@
 """C07 — editing an included header always invalidates stale cached kernels (DESIGN.md 5/C07).
 
 Tie (H): real histories.  Every case is a history of file edits/deletions and builds; the harness writes the
-files (kernel source k.okl and headers h1.h..h4.h whose #include lines and defined macro are given by the
-case), and runs EVERY build in a fresh process (drivers/C07.cpp) with one cache directory per history.  The
+files (kernel source k.okl and headers h1.h..h4.h whose #include lines -- quoted or angle-bracket form, both
+resolved through okl/include_paths -- and defined macro are given by the case), and runs EVERY build in a fresh process (drivers/C07.cpp) with one cache directory per history.  The
 observation of a build = the values the kernel computes (which encode the texts it was compiled from) and
 whether the compiler ran or a cached binary was loaded.  The extracted model (device::applyDependencyHash with
 fuel, build.json dependency records, binary reuse) must predict both; the extracted specification (what a
@@ -43,17 +43,24 @@ META = dict(
 
 NH = 4          # headers h1..h4
 NV = 6          # X1..X6
+VB = NV + 1     # a contents number n stands for: macro X<n mod 7> (none for 0) and, bit k of n div 7, whether the k-th
+                # #include line is written <h.h> (angle brackets, resolved through okl/include_paths) instead of "h.h"
+
+
+def include_lines(incs, val):
+    bits = val // VB
+    return "".join(('#include <h%d.h>\n' if (bits >> k) & 1 else '#include "h%d.h"\n') % j for k, j in enumerate(incs))
 
 
 def header_text(incs, val):
-    t = "".join('#include "h%d.h"\n' % j for j in incs)
-    if val > 0:
-        t += "#define X%d 1\n" % val
+    t = include_lines(incs, val)
+    if val % VB > 0:
+        t += "#define X%d 1\n" % (val % VB)
     return t
 
 
 def root_text(incs, val):
-    t = "".join('#include "h%d.h"\n' % j for j in incs)
+    t = include_lines(incs, val)
     for v in range(1, NV + 1):
         t += "#ifdef X%d\n#define B%d %d\n#else\n#define B%d 0\n#endif\n" % (v, v, 1 << (v - 1), v)
     t += ("@kernel void k(int *out) {\n  for (int i = 0; i < 1; ++i; @tile(1, @outer, @inner)) {\n"
@@ -140,7 +147,16 @@ class Gen:
         rng = self.rng
         cand = [j for j in range(acyclic_from + 1, NH + 1)]
         incs = [j for j in cand if rng.random() < 0.35]
-        return (rng.randint(0, NV), incs)
+        return (self.number(len(incs)), incs)
+
+    def number(self, nincs, lo=0):
+        """macro number plus random bracket style for each include line"""
+        rng = self.rng
+        bits = 0
+        for k in range(nincs):
+            if rng.random() < 0.45:
+                bits |= 1 << k
+        return rng.randint(lo, NV) + VB * bits
 
     def history(self):
         rng = self.rng
@@ -154,7 +170,7 @@ class Gen:
             toks.append("E%d=%d:%s" % (p, val, ",".join(map(str, incs))))
 
         rincs = sorted(rng.sample(range(1, NH + 1), rng.randint(1, 3)))
-        edit(0, rng.randint(1, 9), rincs)
+        edit(0, self.number(len(rincs), 1), rincs)
         for p in range(1, NH + 1):
             if p in rincs or rng.random() < 0.6:
                 edit(p, *self.contents(p, p))
@@ -168,11 +184,11 @@ class Gen:
                 hs = [p for p in files if p != 0]
                 if kind == "val" and hs:
                     p = rng.choice(hs)
-                    edit(p, rng.randint(0, NV), files[p][1])
+                    edit(p, self.number(len(files[p][1])), files[p][1])
                 elif kind == "equal" and len(hs) >= 2:
                     p, q = rng.sample(hs, 2)
-                    v = rng.randint(0, NV)
                     common = [j for j in files[p][1] if j > max(p, q)] if rng.random() < 0.5 else []
+                    v = self.number(len(common))
                     edit(p, v, common)
                     edit(q, v, common)
                 elif kind == "revert":
@@ -181,11 +197,13 @@ class Gen:
                         edit(p, *rng.choice(past[p][:-1]))
                 elif kind == "graph" and hs:
                     p = rng.choice(hs)
-                    edit(p, files[p][0], self.contents(p, p)[1])
+                    ni = self.contents(p, p)[1]
+                    edit(p, files[p][0] % VB + VB * (self.number(len(ni)) // VB), ni)
                 elif kind == "rootval":
-                    edit(0, rng.randint(1, 9), files[0][1])
+                    edit(0, self.number(len(files[0][1]), 1), files[0][1])
                 elif kind == "rootincs":
-                    edit(0, files[0][0], sorted(rng.sample(range(1, NH + 1), rng.randint(0, 3))))
+                    ni = sorted(rng.sample(range(1, NH + 1), rng.randint(0, 3)))
+                    edit(0, files[0][0] % VB + VB * (self.number(len(ni)) // VB), ni)
                 elif kind == "delete" and hs:
                     p = rng.choice(hs)
                     del files[p]
